@@ -1,14 +1,27 @@
 //! `axum` as seen by svgbob_server in the simulation build.
 pub use real_axum::*;
 
-/// `axum::Server` (= `hyper::Server`) with `bind` redirected to the simulator.
-/// The returned builder is hyper's own, so `.serve(app.into_make_service())`
-/// runs hyper's real accept loop, HTTP/1 state machine and axum's router.
+/// `axum::Server` (= `hyper::Server`) with its constructors redirected to the
+/// simulator. The returned builder is hyper's own, so
+/// `.serve(app.into_make_service())` runs hyper's real accept loop, HTTP/1
+/// state machine and axum's router.
 pub struct Server;
 
+type SimBuilder = hyper::server::Builder<svgbob_verif_srvsim::net::SimIncoming>;
+
 impl Server {
-    pub fn bind(addr: &std::net::SocketAddr) -> hyper::server::Builder<svgbob_verif_srvsim::net::SimIncoming> {
-        let incoming = svgbob_verif_srvsim::install(*addr);
-        hyper::Server::builder(incoming)
+    pub fn bind(addr: &std::net::SocketAddr) -> SimBuilder {
+        hyper::Server::builder(svgbob_verif_srvsim::install(*addr))
+    }
+
+    pub fn try_bind(addr: &std::net::SocketAddr) -> Result<SimBuilder, hyper::Error> {
+        Ok(Self::bind(addr))
+    }
+
+    /// A listener created by the caller: only its address is used.
+    pub fn from_tcp(listener: std::net::TcpListener) -> Result<SimBuilder, hyper::Error> {
+        let addr = listener.local_addr().unwrap_or_else(|_| ([0, 0, 0, 0], 3000).into());
+        drop(listener);
+        Ok(Self::bind(&addr))
     }
 }
